@@ -17,6 +17,15 @@ def step (args : List String) : String :=
        | .error _ => "err other"
        | .ok _ => "ok")
     | none => "bad-op"
+  | ["cbref", od, idx, sub, hex, exp, code] =>
+    -- the application's write callback refuses downloads to idx:sub with `code`
+    match C02.parseOd od, idx.toNat?, sub.toNat?, parseHex hex, parseBool exp, code.toNat? with
+    | some od, some idx, some sub, some data, some exp, some code =>
+      let n0 : Node := { C02.mkNode od [] with refuse := [((idx, sub), code)] }
+      let (s1, n1, x) := Spec.refDownload srvInit n0 idx sub data exp [7, 7, 7]
+      let (_, _, y) := Spec.refUpload s1 n1 idx sub
+      s!"{C02.showX x} | store: {C02.showStore n1.store} | readback: {C02.showX y}"
+    | _, _, _, _, _, _ => "bad-op"
   | _ => C02.step args
 
 end Canopen.Driver.C06
